@@ -100,7 +100,7 @@ fn gen_subs(rng: &mut Rng) -> Vec<(Option<String>, Option<String>)> {
 
 pub fn run(ctx: &Ctx) -> i32 {
     let mut report = ctx.report("C18", "exploration");
-    report.rule = "read_card against the simulated terminal: systematically every UID length 0..20 x every number of leading zero bytes x zero runs in front of the last 7/8 bytes; randomly UID absent / 0..20 bytes (all zero, zero-prefixed, three zero bytes in front of the last 14 digits, nibble patterns, random), application list (tag 60) absent/empty/1-5 and 14-43 entries with and without application ids, systematically lists of 0..44 entries x 0..15 padding bytes (status informations of every length around the 254/255/256 APDU length switch and beyond), no TLV container at all, 0-5 intermediate statuses before the status information, all 256 abort codes; the terminal's own time-out (abort 6C, or a card at the last moment) arriving read_card_timeout seconds + 0.1/0.9/1.5 s after the request for read_card_timeout in {0,1,15,100,253,254,255}; in a quarter of the cases the link hiccups once during the first presentation (close / garbage / NACK / foreign or unexpected packet / reply followed by a close at a random packet; the re-sent request is answered properly); slow presentations (1-5 intermediate statuses and the card, each arriving read_card_timeout or read_card_timeout + 1 s after the previous packet, i.e. inside the per-packet wait but the whole exchange far beyond it); every card is presented twice in the same session, the second time with the irrelevant fields (track data, card type, ATS, SAK, tag-62 applications) changed. Oracle: reference classification of DESIGN 8/C18 (three-valued where the statement is silent); both presentations must give the same result. Non-trivial = every read; distinct by hash of the reported card data / abort code.".into();
+    report.rule = "read_card against the simulated terminal: systematically every UID length 0..20 x every number of leading zero bytes x zero runs in front of the last 7/8 bytes; randomly UID absent / 0..20 bytes (all zero, zero-prefixed, three zero bytes in front of the last 14 digits, nibble patterns, random), application list (tag 60) absent/empty/1-5 and 14-43 entries with and without application ids, systematically lists of 0..44 entries x 0..15 padding bytes (status informations of every length around the 254/255/256 APDU length switch and beyond), no TLV container at all, 0-5 (and 64 / 255 / 256 / 257 / 300 / 1000) intermediate statuses before the status information or the abort, all 256 abort codes; the terminal's own time-out (abort 6C, or a card at the last moment) arriving read_card_timeout seconds + 0.1/0.9/1.5 s after the request for read_card_timeout in {0,1,15,100,253,254,255}; in a quarter of the cases the link hiccups once during the first presentation (close / garbage / NACK / foreign or unexpected packet / reply followed by a close at a random packet; the re-sent request is answered properly); slow presentations (1-5 intermediate statuses and the card, each arriving read_card_timeout or read_card_timeout + 1 s after the previous packet, i.e. inside the per-packet wait but the whole exchange far beyond it); every card is presented twice in the same session, the second time with the irrelevant fields (track data, card type, ATS, SAK, tag-62 applications) changed. Oracle: reference classification of DESIGN 8/C18 (three-valued where the statement is silent); both presentations must give the same result. Non-trivial = every read; distinct by hash of the reported card data / abort code.".into();
     report.exhaustive = Some(false);
     report.assumptions = vec!["applications listed only under tag 62 are recorded, not judged (one of the repository's own captures is such a card)".into()];
     let schema = Arc::new(refcodec::zvt_schema());
@@ -165,6 +165,30 @@ pub fn run(ctx: &Ctx) -> i32 {
                     let card = CardData { uid: Some("0000000004a1b2c3d4e5f6".into()), subs, ats: if pad > 0 { Some("5a".repeat(pad)) } else { None }, ..CardData::default() };
                     fixed_card_case(r, &mut rng, &schema, card);
                     r.count("size_class_cards", 1);
+                }
+            }
+        }
+        // many intermediate statuses before the card / the abort ("any number")
+        for (k, n_inter) in [64usize, 255, 256, 257, 300, 1000].iter().enumerate() {
+            if k % threads != shard % threads {
+                continue;
+            }
+            for abort in [None, Some(0x6cu8), Some(0x64)] {
+                let mut sc = Scenario::default();
+                sc.calls = vec![Call::ReadCard];
+                sc.plan.push(2, Cmd::ReadCard, ExPlan { pre: intermediates(*n_inter), card: Some(CardData { uid: Some("04a1b2c3d4e5f6".into()), ..CardData::default() }), result: abort.map(ExResult::Abort).unwrap_or(ExResult::Normal), ..ExPlan::default() });
+                let tr = run_scenario(&sc, &schema);
+                r.case(fnv(format!("many {n_inter} {abort:?}").as_bytes()), true);
+                r.count("presentations_after_many_intermediate_statuses", 1);
+                let got = tr.calls.get(1).map(|c| c.result.clone());
+                let ok = match (&got, abort) {
+                    (Some(CallResult::Ok(OkVal::Membership(m))), None) => m == "04A1B2C3D4E5F6",
+                    (Some(CallResult::Err { class: ErrClass::NoCardPresented, .. }), Some(0x6c)) => true,
+                    (Some(CallResult::Err { class, .. }), Some(c)) if c != 0x6c => *class != ErrClass::NoCardPresented,
+                    _ => false,
+                };
+                if !ok {
+                    r.violation("C18: the result after many intermediate statuses differs from the result after few", &format!("{n_inter} intermediate statuses, then {}: {}", abort.map(|c| format!("abort {c:02x}")).unwrap_or_else(|| "the card".into()), got.map(|g| g.short()).unwrap_or_default()), case_json(&sc, &tr));
                 }
             }
         }
@@ -241,7 +265,7 @@ pub fn run(ctx: &Ctx) -> i32 {
 }
 
 fn intermediates(n: usize) -> Vec<Pre> {
-    (0..n).map(|i| Pre::Intermediate { status: [0x17u8, 0x0a, 0xff, 0x41, 0x0b][i % 5], timeout: (i as u8) * 3 }).collect()
+    (0..n).map(|i| Pre::Intermediate { status: [0x17u8, 0x0a, 0xff, 0x41, 0x0b][i % 5], timeout: ((i % 80) as u8) * 3 }).collect()
 }
 
 fn abort_case(r: &mut Report, schema: &Arc<refcodec::layout::Schema>, code: u8, n_inter: usize) {
